@@ -224,7 +224,7 @@ def latmio_dir(R, itr, D=None, seed=None):
                     break
             att += 1
 
-    Rlatt = R[np.ix_(ind_rp[::-1], ind_rp[::-1])]  # reverse random permutation
+    Rlatt = R[np.ix_(np.argsort(ind_rp), np.argsort(ind_rp))]  # undo the random permutation
 
     return Rlatt, R, ind_rp, eff
 
